@@ -111,7 +111,11 @@ class Local(Backend):
                     # NOTE: Anything from the standard library seems
                     # like an overkill here
                     path = path.replace(os.sep, '/')
-                    yield path[path_length + 1 :]
+                    if self.path == Path():
+                        # Path('.') / 'x' is just 'x': there's no prefix to strip
+                        yield path.removeprefix('./')
+                    else:
+                        yield path[path_length + 1 :]
 
     @backoff_on_oserror
     def delete(self, name):
